@@ -3,6 +3,8 @@
 //! model `c01txb`, ops:
 //!   stats L F chan vth addl feerate spike lim maxdust c0..c6 type n (o|i)<amt>...
 //!   build L F chan vts feerate dust type n (o|i)<amt>...        (o = offered)
+//!   close vts chan dust funder fee skip                          (real build_closing_transaction through hook channel_closing_probe)
+//!   climits funder estMin estNormal target feerate fc chan vts rlen la lb   (real calculate_closing_fee_limits + weight)
 use bitcoin::hashes::Hash;
 use bitcoin::secp256k1::{PublicKey, Secp256k1, SecretKey};
 use bitcoin::Txid;
@@ -59,6 +61,86 @@ fn amount(rng: &mut Rng, feerate: u64, dust: u64, anchors: bool, bal_msat: u64) 
 	};
 	let jitter = match rng.below(6) { 0 => 1, 1 => 999, 2 => 1000, 3 => 1001, _ => 0 };
 	if rng.chance(1, 2) { v.saturating_add(jitter) } else { v.saturating_sub(jitter) }
+}
+
+/// Cooperative close on boundary tuples: the REAL `build_closing_transaction` / `calculate_closing_fee_limits` /
+/// `get_closing_transaction_weight` of a live funded channel (hook `channel_closing_probe`: balance, channel value, dust limit,
+/// funder side, fee inputs replaced for the call) against the translated functions, plus the implementation-side oracle:
+/// outputs + fee (+ what was dropped as dust, + the sub-satoshi remainder) = channel value, the fundee's output is its whole balance.
+fn closing_cases(rec: &mut Rec, rng: &mut Rng, n: u64) {
+	use ldk_verif_harness::sim::Net;
+	use lightning::chain::chaininterface::ConfirmationTarget;
+	let r = guarded(std::panic::AssertUnwindSafe(|| {
+		let mut net = Net::new(2, vec![None, None]);
+		let c = net.open(0, 1, 1_000_000, 300_000_000);
+		(net, c)
+	}));
+	let (net, c) = match r { Ok(x) => x, Err(p) => { rec.oracle_fail(format!("closing probe: could not open a channel: {}", p)); return; } };
+	let (cp, cid) = (net.ids[1], net.chans[c].2);
+	for case in 0..n {
+		let chan: u64 = match rng.below(5) { 0 => 1000 + rng.below(3000), 1 => 100_000, 2 => 1_000_000 + rng.below(1_000_000), 3 => 16_777_215, _ => 5000 + rng.below(500_000) };
+		let dust = match rng.below(5) { 0 => 354, 1 => 546, 2 => 330 + rng.below(3000), 3 => 0, _ => 354 + rng.below(400) };
+		let funder = rng.chance(1, 2);
+		let fee_guess = match rng.below(5) { 0 => 0, 1 => 170 + rng.below(30), 2 => rng.below(3000), 3 => rng.below(chan + 2), _ => 253 * 672 / 1000 };
+		// balance: around the thresholds dust (+fee) ± 1 sat ± 1 msat on either side, 0, everything, random
+		let side_sat = match rng.below(8) { 0 => dust, 1 => dust + fee_guess, 2 => fee_guess, 3 => 0, 4 => chan, 5 => rng.below(chan + 1), 6 => dust + 1, _ => (dust + fee_guess).saturating_sub(1) }.min(chan);
+		let jitter = match rng.below(7) { 0 => 1, 1 => 999, 2 => 1000, 3 => 1001, 4 => 500, _ => 0 };
+		let side_msat = (if rng.chance(1, 2) { (side_sat * 1000).saturating_add(jitter) } else { (side_sat * 1000).saturating_sub(jitter) }).min(chan * 1000);
+		let vts = if rng.chance(1, 2) { side_msat } else { chan * 1000 - side_msat };
+		let funder_bal = if funder { vts / 1000 } else { (chan * 1000 - vts) / 1000 };
+		let fee = match rng.below(7) { 0 => fee_guess, 1 => funder_bal, 2 => funder_bal + 1, 3 => funder_bal.saturating_sub(1), 4 => funder_bal.saturating_sub(dust), 5 => funder_bal.saturating_sub(dust + 1), _ => rng.below(funder_bal + 2) };
+		let skip = rng.chance(1, 4);
+		let est_min = match rng.below(4) { 0 => 253, 1 => rng.below(253), 2 => 253 + rng.below(5000), _ => 1000 } as u32;
+		let est_normal = match rng.below(4) { 0 => est_min, 1 => 253 + rng.below(20_000) as u32, 2 => 2000, _ => rng.below(300) as u32 };
+		let target: Option<u32> = match rng.below(4) { 0 => Some(rng.below(30_000) as u32), 1 => Some(est_min), _ => None };
+		let fr = match rng.below(3) { 0 => 253, 1 => rng.below(10_000) as u32, _ => 2500 };
+		let fc = match rng.below(3) { 0 => 1000, 1 => 0, _ => rng.below(5000) };
+		{
+			let fe = net.nodes[0].fee_estimator;
+			let mut ov = fe.target_override.lock().unwrap();
+			ov.insert(ConfirmationTarget::ChannelCloseMinimum, est_min);
+			ov.insert(ConfirmationTarget::NonAnchorChannelFee, est_normal);
+		}
+		let r = lightning::ln::verif_hooks::channel_closing_probe(net.nodes[0].node, &cp, &cid, vts, chan, dust, funder, fee, skip, target, fr, fc);
+		let (built, limits, weight) = match r { Some(x) => x, None => { rec.oracle_fail("closing probe: channel not found".into()); break; } };
+		if case % 4 != 3 {
+			let op = format!("close {} {} {} {} {} {}", vts, chan, dust, funder as u8, fee, skip as u8);
+			let (res, class) = match &built {
+				Ok((h, cpv, used, outs)) => {
+					let mut o = outs.clone(); o.sort();
+					// ---- implementation-side oracle (independent of the Lean model) ----
+					let (bal_h, bal_c) = (vts / 1000, (chan * 1000 - vts) / 1000);
+					let rem = if vts % 1000 == 0 { 0 } else { 1 };
+					let (pre_h, pre_c) = if funder { (bal_h - fee.min(bal_h), bal_c) } else { (bal_h, bal_c - fee.min(bal_c)) };
+					let dropped = (if *h == 0 { pre_h } else { 0 }) + (if *cpv == 0 { pre_c } else { 0 });
+					if *used != fee { rec.oracle_fail(format!("closing: fee used {} differs from the fee asked for: {}", used, op)); }
+					if h + cpv + used + dropped + rem != chan { rec.oracle_fail(format!("closing: outputs {} + {} + fee {} + dropped {} + remainder {} != channel value: {}", h, cpv, used, dropped, rem, op)); }
+					if *h != 0 && *h != pre_h { rec.oracle_fail(format!("closing: holder is paid {} instead of its balance{} {}: {}", h, if funder { " less the fee" } else { "" }, pre_h, op)); }
+					if *cpv != 0 && *cpv != pre_c { rec.oracle_fail(format!("closing: counterparty is paid {} instead of its balance{} {}: {}", cpv, if funder { "" } else { " less the fee" }, pre_c, op)); }
+					if (*h == 0 && pre_h > dust) || (*cpv == 0 && !skip && pre_c > dust) { rec.oracle_fail(format!("closing: an output above the dust limit was dropped: {}", op)); }
+					if o.iter().sum::<u64>() != h + cpv || o.iter().any(|v| *v == 0) { rec.oracle_fail(format!("closing: built transaction outputs {:?} differ from the values ({}, {}): {}", o, h, cpv, op)); }
+					(format!("ok {} {} {} | {}", h, cpv, used, o.iter().map(|x| x.to_string()).collect::<Vec<_>>().join(" ")),
+					 format!("close:ok:{}{}{}", if *h == 0 { "holder-dust:" } else { "" }, if *cpv == 0 { "cp-dropped:" } else { "" }, if funder { "funder" } else { "fundee" }))
+				},
+				Err(e) => {
+					if fee <= funder_bal { rec.oracle_fail(format!("closing: build_closing_transaction failed ({}) although the funder can pay the fee: {}", e.chars().take(80).collect::<String>(), op)); }
+					("err".to_string(), "close:err".to_string())
+				},
+			};
+			rec.case(&op, &res, &class, true);
+		} else {
+			let op = format!("climits {} {} {} {} {} {} {} {} {} {} {}", funder as u8, est_min, est_normal, target.map(|t| t.to_string()).unwrap_or("-".into()), fr, fc, chan, vts, 71, 22, 22);
+			match limits {
+				Ok((mn, mx)) => {
+					if !funder && mx != (chan * 1000 - vts) / 1000 { rec.oracle_fail(format!("closing: the fundee's maximum fee {} is not the funder's balance: {}", mx, op)); }
+					rec.case(&op, &format!("{} {} {}", mn, mx, weight), if funder { "climits:funder" } else { "climits:fundee" }, true);
+				},
+				Err(_) => { rec.discarded += 1; },
+			}
+		}
+	}
+	net.nodes[0].fee_estimator.target_override.lock().unwrap().clear();
+	std::mem::forget(net);
 }
 
 fn main() {
@@ -189,6 +271,7 @@ fn main() {
 			rec.case(&op, &res, &class, !hin.is_empty());
 		}
 	}
+	closing_cases(&mut rec, &mut rng, if args.thorough { 60_000 } else { 4_000 } * args.scale);
 	rec.notes.insert("rule".into(), "PRNG tuples: channel type × funder × local/remote × boundary amounts (dust limit ± htlc-tx fee ± 1 sat / ± 1 msat, balance fractions), reserves around the funder balance, dust-exposure limits around the pending dust; non-trivial = at least one pending HTLC; distinct by op text".into());
 	rec.finish();
 }
